@@ -140,8 +140,8 @@ void h_peekType(void) {
   QDataStream st; QDataStream_ctor_rw(&st, &buf, 2); st.pos = n0;
   int xn; __CPROVER_assume(0 <= xn && xn <= 32); char xs[32]; QByteArray xid; QByteArray_ctor(&xid); xid.n = xn; xid.vlen = xn; xid.src = xs;
 '''
-    c = wpre + wb.prototype(t_aa) + wb.prototype(t_es) + wb.prototype(t_sbl_w) + rd('callees_encode.h') + t_enc + '''
-void h_encode(void) { __CPROVER_havoc_object(gh_utf8_store); const QXmppStunMessage *self; QByteArray *ret; const QByteArray *key; bool fp; QXmppStunMessage_encode(self, ret, key, fp); }
+    c = wpre.replace('#define QBA_OWNED 40\n', '') + wb.prototype(t_aa) + wb.prototype(t_es) + wb.prototype(t_sbl_w) + rd('callees_encode.h') + t_enc + '''
+void h_encode(void) { gh_utf8_store = malloc(QBA_MAX); __CPROVER_assume(gh_utf8_store != 0); const QXmppStunMessage *self; QByteArray *ret; const QByteArray *key; bool fp; QXmppStunMessage_encode(self, ret, key, fp); }
 '''
     f = wb.write('encode.c', c)
     p = Proof('encode', f, 'h_encode', enforce='QXmppStunMessage_encode', replace=['addAddress', 'encodeString', 'setBodyLength', 'generateHmacSha1', 'generateCrc32'],
@@ -158,7 +158,7 @@ void h_encode(void) { __CPROVER_havoc_object(gh_utf8_store); const QXmppStunMess
     p = Proof('encodeAddress', f, 'h_encodeAddress', enforce='encodeAddress', kind='complete', loop_contracts=False, unwind=17, include_dirs=inc, timeout=900,
               note='the 16-iteration XOR loop fully unwound; bytes written are the inverse of what decodeAddress reads (RFC 5389 15.1/15.2)')
     proofs.append(labelled(p, 'encodeAddress', sp_ea))
-    c = wpre + t_es + '\nvoid h_encodeString(void) { __CPROVER_havoc_object(gh_utf8_store);' + wharness_stream + '  QString s; quint16 type; encodeString(&st, type, &s); }\n'
+    c = wpre + t_es + '\nvoid h_encodeString(void) { gh_utf8_store = malloc(QBA_MAX); __CPROVER_assume(gh_utf8_store != 0);' + wharness_stream + '  QString s; quint16 type; encodeString(&st, type, &s); }\n'
     f = wb.write('encodeString.c', c)
     p = Proof('encodeString', f, 'h_encodeString', enforce='encodeString', kind='complete', loop_contracts=False, include_dirs=inc, timeout=600)
     proofs.append(labelled(p, 'encodeString', sp_es))
